@@ -56,6 +56,7 @@ void gen_common_knobs(Rng &r, Plan &plan, bool faults) {
         p["eagain_send_pm"] = r.chance(0.3) ? (int64_t)r.range(20, 300) : 0;
         p["eagain_recv_pm"] = r.chance(0.3) ? (int64_t)r.range(20, 300) : 0;
         p["delay_pm"] = r.chance(0.2) ? (int64_t)r.range(20, 200) : 0;
+        p["eintr_pm"] = r.chance(0.25) ? (int64_t)r.range(30, 400) : 0;   // signals interrupting the library's waits inside blocking calls
     }
     p["debug_log"] = r.chance(0.1);
     p["plain_api"] = r.chance(0.3);     // xcm_connect / xcm_server / xcm_accept instead of the _a variants where no attributes are wanted
@@ -129,6 +130,7 @@ Result run_plan(const Plan &plan, bool verbose) {
     kern.p_eagain_send = plan.P("eagain_send_pm") / 1000.0;
     kern.p_eagain_recv = plan.P("eagain_recv_pm") / 1000.0;
     kern.p_delay = plan.P("delay_pm") / 1000.0;
+    kern.p_eintr = plan.P("eintr_pm") / 1000.0;
     kern.linux_writeable_rule = plan.P("linux_writeable", 1) != 0;
     kern.mtime_gran = plan.P("mtime_gran_ns", 1);
     kern.fail_rescall_at = plan.P("fail_rescall_at", -1);
